@@ -2,24 +2,24 @@ SPECIFICATION Spec
 CONSTANTS
   Unary = {u1, u2, u3}
   Subs = {}
-  Notifs = {n1}
+  Notifs = {}
   Retry = {}
   NVals = 0
-  MaxGen = 0
-  MaxFaults = 0
+  MaxGen = 1
+  MaxFaults = 1
   AllowStop = FALSE
-  AllowCancel = TRUE
+  AllowCancel = FALSE
   Reconnect = TRUE
-  MaxAttempts = 1
+  MaxAttempts = 2
   FixExitOrder = FALSE
   FixReadErr = TRUE
   FixStaleDelete = FALSE
-INVARIANT TypeOK
 INVARIANT OwnResult
 INVARIANT MailboxOwn
 INVARIANT AtMostOnce
 INVARIANT AnsweredExecuted
-INVARIANT NoIdForNotif
-INVARIANT CtxDoneOnlyIfCancelled
+INVARIANT OwnValuesPrefix
+INVARIANT BufferedOwn
 INVARIANT NoLostCall
+INVARIANT NoStaleOpenSink
 CHECK_DEADLOCK FALSE
